@@ -311,10 +311,13 @@ def rule_r6(prog, res) -> None:
         a_ = pb.node.args
         defaults = {q.arg: d.value for q, d in zip(a_.kwonlyargs, a_.kw_defaults) if isinstance(d, ast.Constant)}
         defaults.update({q.arg: d.value for q, d in zip(a_.args[len(a_.args) - len(a_.defaults) :], a_.defaults) if isinstance(d, ast.Constant)})
+        from ..effects import Vec
+
+        # the differences of three edges: the first step is fine, the second one is -1 / 0 / +1
         for v in (-1.0, 0.0, 1.0):
             env = dict(shape_ok)
             env.update(defaults)  # optional flags at their default (an array is given)
-            env.update({d: v for d in diffs})
+            env.update({d: Vec((1.0, v)) for d in diffs})
             verdict[v] = symx.outcomes_under(ppaths, env)
     if verdict.get(-1.0) == {"raise"} and verdict.get(0.0) == {"raise"} and verdict.get(1.0) == {"return"}:
         res.ok("C15.R6", res.site(pb), "raises when any edge difference is <= 0 (equal edges rejected), returns for increasing edges")
@@ -326,8 +329,11 @@ def rule_r6(prog, res) -> None:
     spaths = symx.explore(prog, ss, inline=symx.inline_private_helpers(prog))
     pmin, pmax = ss.param_names()[1:3]
     sverdict = {}
+    from ..effects import Vec
+
+    # two-element test vectors: all ordered / one pair equal / one pair reversed (the other pair is fine)
     for lo, hi in ((1.0, 2.0), (2.0, 2.0), (3.0, 2.0)):
-        env = {pmin: lo, pmax: hi}
+        env = {pmin: Vec((1.0, lo)), pmax: Vec((2.0, hi))}
         # the shape tests (ndim / len of the two arrays) hold for two scalars of equal shape
         for p in spaths:
             for t, _ in p.literals():
@@ -335,7 +341,7 @@ def rule_r6(prog, res) -> None:
                     if isinstance(y, ast.Attribute) and y.attr == "ndim":
                         env[unparse(y)] = 1
                     if isinstance(y, ast.Call) and isinstance(y.func, ast.Name) and y.func.id == "len":
-                        env[unparse(y)] = 1
+                        env[unparse(y)] = 2
         sverdict[(lo, hi)] = symx.outcomes_under(spaths, env)
     if sverdict[(1.0, 2.0)] == {"return"} and sverdict[(2.0, 2.0)] == {"raise"} and sverdict[(3.0, 2.0)] == {"raise"}:
         res.ok("C15.R6", res.site(ss), "raises when rmax - rmin <= 0, accepts rmin < rmax")
